@@ -4,7 +4,8 @@
    number of client threads with any programs over the whole API, and every schedule. *)
 From Coq Require Import List Arith ZArith Lia Bool.
 Import ListNotations.
-From GV Require Import Sched Events SOHModel SOHProofs.
+From GV Require Import Sched Events SOHModel SOHProofs SOHLin.
+From GV Require Lin.
 Local Open Scope Z_scope.
 
 (* ---------- memory safety ---------- *)
@@ -80,9 +81,14 @@ Proof. exact window_edge_inside. Qed.
    the state produced by the entries before it - and whenever the mutex is free the two maps are
    exactly the state that history produces (soh_linearizable).  soh_section_refines is the
    per-method refinement inside a section (stepwise iteration = the method run alone).
-   Not mechanised: the general meta-theorem "one linearization point inside each call interval
-   implies linearizability" (Herlihy-Wing); here the point (the unlock step) lies between the
-   operation's invoke and return events by construction of the pc automaton. *)
+   soh_linearizable_hw instantiates the Herlihy-Wing meta-theorem of Common/Lin.v (linearization points
+   imply linearizability): hist_of is the history of a schedule - Inv t (method, argument) at the K_INVOKE
+   step of a holder method, Lin t; Res t r at the step that releases the mutex, appends the log entry and
+   emits K_RET r (r = Some z) or lets the predicate's exception leave (K_CATCH, r = None: exceptional
+   outcomes are part of the history, throw plans are not excluded); Drop / ReadObj are client code and
+   emit nothing (soh_hist_events_observable).  soh_hist_wf: every such history passes Lin.scan, and the
+   operations in linearization-point order are a legal run of the sequential map (happly = apply_op)
+   from the empty maps, each with the result it returned. *)
 Theorem soh_linearizable : forall th progs s, R th progs s ->
   legal (throws (gl s)) st0 (log (gl s)) /\ (mtx (gl s) = None -> cur (gl s) = hist (gl s)).
 Proof. exact log_is_history. Qed.
@@ -93,6 +99,26 @@ Theorem soh_log_at_unlock : forall t c g l g' l' es, tstep t c g l = Some (g', l
   (exists o, at_ l = XUnlock o /\ log g' = log g ++ [Entry t (OP o) null_ptr None] /\ mtx g' = None /\
              In (E K_UNLOCK O_MTX 0) es /\ In (E K_CATCH 0 0) es).
 Proof. exact log_step. Qed.
+Theorem soh_hist_wf : forall th progs sched,
+  exists L, Lin.scan hop hret (hist_of th progs sched) = Some L /\
+            Lin.legal hop hret mstate (happly th) st0 L.
+Proof. exact hist_wf. Qed.
+Theorem soh_linearizable_hw : forall th progs sched,
+  Lin.linearizable hop hret mstate (happly th) st0 (hist_of th progs sched).
+Proof. exact linearizable_hw. Qed.
+Theorem soh_hist_events_observable : forall t c g l g' l' es, tstep t c g l = Some (g', l', es) ->
+  match hevs t l l' with
+  | [] => log g' = log g
+  | [Lin.Inv _ _ u oa] => u = t /\ log g' = log g /\ In (E K_INVOKE 0 (opcode (fst oa))) es
+  | [Lin.Lin _ _ u; Lin.Res _ _ v r] =>
+    u = t /\ v = t /\ In (E K_UNLOCK O_MTX 0) es /\
+    match r with
+    | Some z => In (E K_RET 0 z) es /\ exists o a, log g' = log g ++ [Entry t o a (Some z)]
+    | None => In (E K_CATCH 0 0) es /\ exists o a, log g' = log g ++ [Entry t o a None]
+    end
+  | _ => False
+  end.
+Proof. exact hevs_observable. Qed.
 Theorem soh_section_refines : forall th progs s u, R th progs s -> lin_pc (gl s) (pcof (thr s) u).
 Proof. exact section_refines. Qed.
 Theorem soh_throw_plan_constant : forall th progs s, R th progs s -> throws (gl s) = th.
@@ -201,6 +227,20 @@ Example ex_destroyed_after_drop :
                 (t3 0 ++ tn 1 5 ++ tn 0 5 ++ [(1, 0)]%nat) in
   rc_of (heap (gl s)) 1 = 0%nat /\ faulted (gl s) = false.
 Proof. vm_compute. auto. Qed.
+
+(* the history of ex1: thread 1's find overlaps nothing, thread 0's removal is linearized after it; a throwing
+   predicate appears with the exceptional result *)
+Example ex_history :
+  hist_of [] ex1_progs (t3 0 ++ [(1, 0); (0, 0)]%nat ++ tn 1 4 ++ tn 0 4) =
+  [Lin.Inv _ _ 0%nat (OS (AddT 0 5 1), (1%nat, 5)); Lin.Lin _ _ 0%nat; Lin.Res _ _ 0%nat (Some 1);
+   Lin.Inv _ _ 1%nat (OS (FindName 0 false), null_ptr); Lin.Inv _ _ 0%nat (OS (RemName 0), null_ptr);
+   Lin.Lin _ _ 1%nat; Lin.Res _ _ 1%nat (Some 1); Lin.Lin _ _ 0%nat; Lin.Res _ _ 0%nat (Some 1)].
+Proof. vm_compute. reflexivity. Qed.
+Example ex_history_exn :
+  hist_of [0] [[OS (AddT 3 7 1); OP (RemPred 7)]] (tn 0 7) =
+  [Lin.Inv _ _ 0%nat (OS (AddT 3 7 1), (1%nat, 7)); Lin.Lin _ _ 0%nat; Lin.Res _ _ 0%nat (Some 1);
+   Lin.Inv _ _ 0%nat (OP (RemPred 7), null_ptr); Lin.Lin _ _ 0%nat; Lin.Res _ _ 0%nat None].
+Proof. vm_compute. reflexivity. Qed.
 
 (* a thread inside a predicate scan (it owns the mutex), another one blocked on the lock *)
 Definition ex2 := runS (init [] [[OS (Add 0 1); OS (Add 1 2); OP (FindPred 2 false)]; [OS (RemName 0)]])
